@@ -403,8 +403,8 @@ def _r12_4(prog: Program, res: Result) -> None:
     res.decide(type_branch, "R12.4", fn4.loc(), fn4.fq, "type template", "matches exactly the instances of the type" if type_branch else "type templates no longer test isinstance(node, template)")
     ast_branch = any(f"isinstance({node_p}, type({tmpl_p}))" in t and "_match_template_vars" in t for t in texts)
     res.decide(ast_branch, "R12.4", fn4.loc(), fn4.fq, "AST template", "requires the node to be of the template's class, then compares fields" if ast_branch else "AST templates no longer require the same node class")
-    from ..model import last_return
-    last = last_return(fn4.node) or fn4.node
+    from ..model import default_return
+    last = default_return(prog, fn4) or fn4.node
     texts = [norm(x).replace("_isinstance_cache(", "isinstance(") for x in walk_own(fn4.node) if isinstance(x, (ast.If, ast.Return))]
     eq_branch = any(f"{node_p} == {tmpl_p}" in t or f"{tmpl_p} == {node_p}" in t for t in texts) and isinstance(last, ast.Return) and norm(last.value) == "()"
     res.decide(eq_branch, "R12.4", fn4.loc(last), fn4.fq, "leaf values", "compared by equality, default is no match" if eq_branch else "leaf comparison / default no-match changed")
